@@ -331,8 +331,8 @@ def gz_ref1 (f : Nat → Nat → Modulus → R Nat) (cm : List Modulus) (N : Nat
     let a ← gz_ref2 f cm N cdp pd fix i cm.length 0 a
     gz_ref1 f cm N cdp pd t upperHalf qModT fuel (i + 1) a
 
-theorem gz_add_loop2_eq (cm : List Modulus) (N v3 : Nat) (cdp : List MulOperand) (pd : List Nat) (fix f1 i : Nat) : ∀ cnt j a,
-    GenS.multiply_add_plain_loop2 cm N v3 cdp pd fix f1 i cnt j a = gz_ref2 addMod cm N cdp pd fix i cnt j a := by
+theorem gz_add_loop2_eq (cm : List Modulus) (N v1 : Nat) (cdp : List MulOperand) (pd : List Nat) (fix f1 i : Nat) : ∀ cnt j a,
+    GenS.multiply_add_plain_loop2 v1 fix f1 i cm N cdp pd cnt j a = gz_ref2 addMod cm N cdp pd fix i cnt j a := by
   intro cnt
   induction cnt with
   | zero => intro j a; rfl
@@ -341,9 +341,9 @@ theorem gz_add_loop2_eq (cm : List Modulus) (N v3 : Nat) (cdp : List MulOperand)
     rw [GenS.multiply_add_plain_loop2, gz_ref2]
     simp only [gw_multiply_u64operand_add_u64_mod_eq, gw_add_u64_mod_eq, ih]
 
-theorem gz_add_loop1_eq (cm : List Modulus) (pc N v3 : Nat) (pm : Modulus) (cdp : List MulOperand) (uh qModT : Nat) (pd : List Nat) (hv3 : v3 = cm.length) :
+theorem gz_add_loop1_eq (v1 : Nat) (cm : List Modulus) (pc N : Nat) (pm : Modulus) (cdp : List MulOperand) (uh qModT : Nat) (pd : List Nat) (hv3 : v1 = cm.length) :
     ∀ cnt i a p0 p1 n0 n1 f0 f1,
-    GenS.multiply_add_plain_loop1 cm pc N v3 pm cdp uh qModT pd cnt i a p0 p1 n0 n1 f0 f1 =
+    GenS.multiply_add_plain_loop1 v1 cm pc N pm cdp uh qModT pd cnt i a p0 p1 n0 n1 f0 f1 =
       gz_ref1 addMod cm N cdp pd pm.value uh qModT cnt i a := by
   subst hv3
   intro cnt
@@ -353,8 +353,8 @@ theorem gz_add_loop1_eq (cm : List Modulus) (pc N v3 : Nat) (pm : Modulus) (cdp 
     intro i a _ _ _ _ _ _
     rw [GenS.multiply_add_plain_loop1, gz_ref1]
     simp only [gw_multiply_u64_u64_eq, gw_add_u64_eq, gz_add_loop2_eq, ih]
-theorem gz_sub_loop2_eq (cm : List Modulus) (N v3 : Nat) (cdp : List MulOperand) (pd : List Nat) (i fix f1 : Nat) : ∀ cnt j a,
-    GenS.multiply_sub_plain_loop2 cm N v3 cdp pd i fix f1 cnt j a = gz_ref2 subMod cm N cdp pd fix i cnt j a := by
+theorem gz_sub_loop2_eq (cm : List Modulus) (N v1 : Nat) (cdp : List MulOperand) (pd : List Nat) (i fix f1 : Nat) : ∀ cnt j a,
+    GenS.multiply_sub_plain_loop2 v1 i fix f1 cm N cdp pd cnt j a = gz_ref2 subMod cm N cdp pd fix i cnt j a := by
   intro cnt
   induction cnt with
   | zero => intro j a; rfl
@@ -363,9 +363,9 @@ theorem gz_sub_loop2_eq (cm : List Modulus) (N v3 : Nat) (cdp : List MulOperand)
     rw [GenS.multiply_sub_plain_loop2, gz_ref2]
     simp only [gw_multiply_u64operand_add_u64_mod_eq, gw_sub_u64_mod_eq, ih]
 
-theorem gz_sub_loop1_eq (cm : List Modulus) (pc N v3 : Nat) (pm : Modulus) (cdp : List MulOperand) (uh qModT : Nat) (pd : List Nat) (hv3 : v3 = cm.length) :
+theorem gz_sub_loop1_eq (v1 : Nat) (cm : List Modulus) (pc N : Nat) (pm : Modulus) (cdp : List MulOperand) (uh qModT : Nat) (pd : List Nat) (hv3 : v1 = cm.length) :
     ∀ cnt i a,
-    GenS.multiply_sub_plain_loop1 cm pc N v3 pm cdp uh qModT pd cnt i a =
+    GenS.multiply_sub_plain_loop1 v1 cm pc N pm cdp uh qModT pd cnt i a =
       gz_ref1 subMod cm N cdp pd pm.value uh qModT cnt i a := by
   subst hv3
   intro cnt
